@@ -521,7 +521,7 @@ def ob_every_value_processed(ctx, res):
     """C01/C02/C06/C07/C08: between the refusal guards and the end of the per-value functions there is no early success exit:
     every accepted value reaches the summary update / depth sweep, the items buffer, the flush test and every zoom level."""
     for file, what in ((WW, "bigWig"), (BW, "bigBed")):
-        fn = ctx.ast.fn(file, "process_val")
+        fn = ctx.ast.fn(file, "process_val", inline=True, keep=("encode_section",))
         bad = [n for n in walk_no_nested_fn(fn.body) if n.k == "return" and not up(n).startswith("return Err(")]
         bad += [n for n in walk_no_nested_fn(fn.body) if n.k == "continue"]
         # returns inside the summary-sweep closure do not leave process_val; walk_no_nested_fn descends into closures, so filter them
@@ -537,6 +537,9 @@ def ob_every_value_processed(ctx, res):
             t = up(s_)
             if re.match(r"summary\.\w+ (\+=|=)", t) or t.startswith("add_interval_to_summary("):
                 idx.setdefault("summary", i)
+            elif s_.k == "expr_stmt" and strip(s_["e"]).k == "block" and strip(s_["e"]).get("inlined_from") and re.search(r"\bsummary\.\w+ (\+=|=)", t) \
+                    and not any(x.k in ("if", "match", "return", "break", "continue", "while", "for", "loop") for x in walk_no_nested_fn(strip(s_["e"]))):
+                idx.setdefault("summary", i)     # the update, extracted into a straight-line helper
             if re.match(r"items\.push\(current_val\);", t):
                 idx["push"] = i
             if s_.k == "expr_stmt" and strip(s_["e"]).k == "if" and "encode_section" in t:
